@@ -98,6 +98,8 @@ impl Vocab {
             0 => w.to_uppercase(),
             1 => { let mut c = w.chars(); match c.next() { Some(f) => f.to_uppercase().collect::<String>() + c.as_str(), None => String::new() } }
             2 => decompose(w),
+            // a combining mark after the last letter (decomposed accent the language may not compose): stripped from the word
+            4 => format!("{}{}", w, r.pick(&['\u{301}', '\u{300}', '\u{308}', '\u{327}'])),
             // non-alphanumeric edge characters that are not separators: they stay in the split word and are stripped
             3 => { let (a, b) = *r.pick(&[("\"", "\""), ("", "++"), ("[", "]"), ("'", ""), ("", "%"), ("#", ""), ("*", "*"), ("$", "")]); format!("{}{}{}", a, w, b) }
             _ => w.to_string(),
@@ -429,10 +431,28 @@ pub fn store_case(code: &str, v: &Vocab, r: &mut Rng, name: String, o: &StoreGen
     Case { name, lang: code.to_string(), stream: if o.cache_stress { "F-store-cache-stress" } else if o.ties { "G-store-ties" } else if o.small_alphabet { "H-store-dense" } else { "F-store-ops" }, ops }
 }
 
+/// many records that are all hits, limit 9..12, so that the bounded selection compacts its buffer repeatedly
+pub fn big_hit_case(code: &str, r: &mut Rng, name: String) -> Case {
+    let limit = r.range(9, 12);
+    let n = r.range(2 * limit - 1, 3 * limit + 2);
+    let mut ops = vec![Op::New, Op::Limit(limit)];
+    let mut used: Vec<usize> = vec![];
+    for k in 0..n {
+        let rating = loop { let x = r.below(100000); if !used.contains(&x) { used.push(x); break x; } };
+        let w: String = (0..r.range(3, 6)).map(|_| (b'a' + r.below(26) as u8) as char).collect();
+        ops.push(Op::Add(k + 1, rating, format!("{} desk lamp", w)));
+    }
+    for q in &["lamp", "desk lam", "desk", ""] { ops.push(Op::Search(q.to_string())); }
+    ops.push(Op::Limit(limit + 3));
+    ops.push(Op::Search("lamp".to_string()));
+    Case { name, lang: code.to_string(), stream: "H-store-big-hit-lists", ops }
+}
+
 pub fn store_cases(code: &str, r: &mut Rng, n: usize) -> Vec<Case> {
     let v = vocab(code);
     let mut cases = vec![];
     for i in 0..n {
+        if i % 6 == 5 && i % 12 == 11 { cases.push(big_hit_case(code, r, format!("store-{}-{}", code, i))); continue; }
         let o = match i % 6 {
             0 => StoreGenOpts { max_records: 6, ops: 12, ties: false, small_alphabet: false, cache_stress: false },
             1 => StoreGenOpts { max_records: 25, ops: 10, ties: false, small_alphabet: false, cache_stress: false },
@@ -472,15 +492,20 @@ pub fn reg_cases(r: &mut Rng, n: usize) -> Vec<Case> {
                     let (id, li) = *r.pick(&live);
                     if titles.iter().filter(|e| e.0 == id).count() >= 9 { continue; }   // stay below the 10*limit candidate cap: no cap ties
                     let t = vocabs[li].title(r);
-                    let rating = loop { let x = r.below(1 << 20); if !used.contains(&x) { used.push(x); break x; } };
-                    titles.push((id, t.clone()));
-                    ops.push(Op::RAdd(id, rid, rating, t)); rid += 1;
+                    // sometimes the same title goes into every live store (stores of different languages then hold the same text)
+                    let targets: Vec<usize> = if r.chance(1, 3) { live.iter().map(|e| e.0).filter(|i| titles.iter().filter(|e| e.0 == *i).count() < 9).collect() } else { vec![id] };
+                    for tid in targets {
+                        let rating = loop { let x = r.below(1 << 20); if !used.contains(&x) { used.push(x); break x; } };
+                        titles.push((tid, t.clone()));
+                        ops.push(Op::RAdd(tid, rid, rating, t.clone())); rid += 1;
+                    }
                 }
                 8 | 9 | 10 if can_use => {
                     let (id, li) = *r.pick(&live);
                     let mine: Vec<&String> = titles.iter().filter(|e| e.0 == id).map(|e| &e.1).collect();
                     let q = if mine.is_empty() || r.chance(1, 5) { r.pick(&["", " ", "a"]).to_string() } else { let t = (*r.pick(&mine)).clone(); query_for(&vocabs[li], r, &t) };
-                    ops.push(Op::RSearch(id, q));
+                    // sometimes the same query string is sent to every live store back to back
+                    if r.chance(1, 3) { for (other, _) in &live { ops.push(Op::RSearch(*other, q.clone())); } } else { ops.push(Op::RSearch(id, q)); }
                     for (other, _) in &live { ops.push(Op::RResults(*other)); }
                 }
                 _ if can_use => { let (id, _) = *r.pick(&live); ops.push(Op::RResults(id)); }
